@@ -546,7 +546,39 @@ def e_shape(s):
     ch = ['_' if isinstance(c, str) else '(%s)' % e_shape(c) for c in s[1:]]
     return E_OPS[s[0]].format(*ch)
 
+INF = float('inf')
+def magnitude(s):
+    """static upper bound of |value| (names <= 25: covers every scope's value of every name), used only to keep the
+    enumeration free of astronomically expensive expressions such as x ** (y ** (z ** 2))"""
+    if isinstance(s, str): return 2.0 if s == '2' else 25.0
+    op = s[0]
+    m = [magnitude(c) for c in s[1:]]
+    if INF in m: return INF
+    if op in ('<', '==', 'in', 'is not', 'chain', 'not'): return 1.0
+    if op in ('or', 'and', 'ifexp'): return max(m)
+    if op in ('neg', 'pos', 'inv', '.real', '.5'): return m[0] + 1
+    if op in ('+', '-', '|', '^', '&'): return m[0] + m[1]
+    if op in ('//', '%', '/', '>>'): return m[0]
+    if op == '*': return m[0] * m[1]
+    if op == 'float*': return m[0] * 2
+    if op in ('**', 'negconst**'):
+        a, b = (m[0], m[1]) if op == '**' else (1.0, m[0])
+        if b > 200: return INF
+        try: r = max(a, 2.0) ** b
+        except OverflowError: return INF
+        return r if op == '**' else 1.0
+    if op == '<<': return m[0] * 2.0 ** m[1] if m[1] <= 200 else INF
+    if op == 's * n': return m[0] * 6
+    return 100 * max(m + [1.0]) + 100
+MAGNITUDE_LIMIT = 1e18
+
 def space_e2e(ctx):
+    out, bound = _space_e2e(ctx)
+    kept = [s for s in out if magnitude(s) <= MAGNITUDE_LIMIT]
+    bound += '; %d of %d expressions excluded because a static bound of their value exceeds %g' % (len(out) - len(kept), len(out), MAGNITUDE_LIMIT)
+    return kept, bound
+
+def _space_e2e(ctx):
     out = []
     ops = list(E_OPS)
     for op in ops:                                   # depth 1: every leaf in every slot
